@@ -277,7 +277,12 @@ def bootstrap_chain(ctx):
         ok = len(en) == 1
         if ok:
             pr = ap[0].value.single_atom()[1][0].single_atom()
-            ok = pr is not None and pr[0] in ("list", "tuple") and len(pr[1]) == 2 and c08._is_ret(tr, dc[1], pr[1][0]) is not None
+            pair = None
+            if pr is not None and pr[0] in ("list", "tuple") and len(pr[1]) == 2:
+                pair = pr[1]                       # the pair is recorded, the divergence taken in a second pass
+            elif pr is not None and pr[0] == "call" and pr[1] == "scipy.stats.entropy" and len(pr[2]) == 2:
+                pair = pr[2]                       # the divergence of the pair is recorded directly
+            ok = pair is not None and q.call_value(tr, dc[1]) == pair[0] and q.call_value(tr, dc[2]) == pair[1]
         ctx.ob("FRM", site, "one pair of corrected distributions is recorded per bootstrap repetition", ok, "", ap[0] if ap else None)
 
 
